@@ -34,7 +34,8 @@ def alphabet(kind="full", init_enum=False):
     evs = [(k, n) for k in per for n in NAMES]
     evs += [(k, None) for k in (STRUCTURAL if kind != "core" else ("open", "close"))]
     if init_enum:
-        evs += [("init_enum", n) for n in NAMES]
+        # an enumerator declared inside braces that are not a scope
+        evs += [("init_enum", n) for n in NAMES] + [("member_enum", n) for n in NAMES]
     return tuple(evs)
 
 
@@ -133,7 +134,10 @@ def apply(st, ev, typedef_labels=False):
         if st is None:
             return None
         return _declare(st, name, "ordinary", "fn")
-    if k in ("enum", "init_enum"):   # enum {N};  /  int z[] = { sizeof(enum {N}) };
+    if k in ("enum", "init_enum", "member_enum"):
+        # enum {N};  /  int z[] = { sizeof(enum {N}) };  /  struct S { enum {N} m; };
+        # neither initializer braces nor a struct body is a scope for ordinary
+        # identifiers: the enumerator belongs to the enclosing block or file
         if cur is not None:
             return None
         return _declare(st, name, "ordinary", "enum")
@@ -188,6 +192,7 @@ def text(ev, idx):
         "close": "}",
         "init": "int z%d [ ] = { 0 } ;" % idx,
         "init_enum": "int z%d [ ] = { sizeof ( enum { %s } ) } ;" % (idx, n),
+        "member_enum": "struct S%d { enum { %s } m ; } ;" % (idx, n),
     }[k]
 
 
